@@ -275,6 +275,10 @@ def _sample_goals(ctx, rng):
     for d in (1, 2, 3):
         for k in range(n):
             A, B = _pair(rng, d)
+            if k == 0 and A[0] > 0:     # always a vanished second / first operand among the samples
+                B = (0.0, B[1], B[2])
+            elif k == 1 and B[0] > 0:
+                A = (0.0, A[1], A[2])
             d1, d2 = _make("DiffuseDroplet", d, *A), _make("DiffuseDroplet", d, *B)
             out = np.record(np.zeros_like(d1.data))
             cls._merge_data(d1.data, d2.data, out=out)
@@ -299,9 +303,10 @@ def _sample_goals(ctx, rng):
                 heap = (f"(fun c : nat => match c with O => mk_drop {R(A[0])} (fun _ => {R(A[1][0])}) {R(A[2])} "
                         f"| _ => mk_drop {R(B[0])} (fun _ => {R(B[1][0])}) {R(B[2])} end)")
                 cell = f"(merge_exec_diffuse_{d} (fst merge_call_inplace) {heap} (snd merge_call_inplace))"
-                exec_goals.append((f"exec_{d} radius in place", f"d_radius {cell}", ri, 1e-13 * abs(ri) + 1e-300))
-                exec_goals.append((f"exec_{d} position in place", f"d_pos {cell} 0%nat", pi_[0], 1e-13 * ps + 1e-300))
-                exec_goals.append((f"exec_{d} width in place", f"d_width {cell}", wi, 1e-14 * abs(wi) + 1e-300))
+                ops = f"r=({A[0]!r},{B[0]!r}) p=({A[1][0]!r},{B[1][0]!r}) w=({A[2]!r},{B[2]!r})"
+                exec_goals.append((f"exec_{d} radius in place {ops}", f"d_radius {cell}", ri, 1e-13 * abs(ri) + 1e-300))
+                exec_goals.append((f"exec_{d} position in place {ops}", f"d_pos {cell} 0%nat", pi_[0], 1e-13 * ps + 1e-300))
+                exec_goals.append((f"exec_{d} width in place {ops}", f"d_width {cell}", wi, 1e-14 * abs(wi) + 1e-300))
     ctx.sample({"goal": f"Rabs ({goals[1][1]} - {vlib.rlit(goals[1][2])}) <= tol", "impl_value": goals[1][2]})
     req = "From Coq Require Import Reals Arith.\nFrom PD Require Import Model.Num Gen.Gen_spherical Gen.Gen_merge."
     unfold = [f"{f}_{d}" for f in ("merge_radius", "merge_pos", "vfr_nd", "rfv_nd") for d in (1, 2, 3)] + ["merge_width"]
@@ -312,17 +317,24 @@ def _sample_goals(ctx, rng):
     from concurrent.futures import ThreadPoolExecutor
     shards = [(f"c11_{i}", goals[i::6], unfold) for i in range(6)] + [("c11_exec", exec_goals, unfold_exec)]
     with ThreadPoolExecutor(8) as ex:
-        list(ex.map(lambda a: vlib.sample_goals(ctx, a[0], req, a[1], a[2]), shards))
+        res = list(ex.map(lambda a: vlib.sample_goals(ctx, a[0], req, a[1], a[2]), shards))
+    return [g for r in res for g in r]
 
 
 def check(ctx: vlib.Ctx) -> int:
     rng = random.Random(ctx.seed)
-    ok = vlib.prove(ctx, ["Proofs/C11.vo", "Model/Samples.vo"], gens=["Gen_spherical", "Gen_merge"])
-    ctx.tie.append("translator (Gen_merge, Gen_spherical regenerated from the source tree) + interval sample goals; "
-                   "correspondence of merge()/_merge_data/compiled paths on seeded operands")
-    gen_ok = not any("translator failed closed" in n for n in ctx.notes)
-    if gen_ok:
-        _sample_goals(ctx, rng)
+    ok, fresh = vlib.prove_with_fallback(ctx, ["Proofs/C11.vo", "Model/Samples.vo"], gens=["Gen_spherical", "Gen_merge"])
+    ctx.tie.append("interval sample goals: merge_radius_d / merge_pos_d / merge_width / in-place merge_exec_d of the "
+                   + ("regenerated" if fresh else "golden") + " Gen_merge evaluated inside Coq against the implementation's "
+                   "results; numerical correspondence of merge()/_merge_data/compiled paths on seeded operands")
+    if ok:
+        # the goals mention only Coq names of Gen_merge (fresh or golden text) and values computed by the
+        # implementation: nothing from the translator's Python side is needed
+        failed = _sample_goals(ctx, rng)
+        if not fresh:
+            for label, expr, val in failed[:3]:
+                ctx.violations.append({"what": "golden merge model and implementation differ", "found": True,
+                                       "input": {"sample": label, "coq_expression": expr, "implementation_value": val}})
     # property oracle over the implementation: always a small stream; larger when something is broken
     big = bool(ctx.broken)
     fails = oracle(rng, ctx.scale(12, 120) * (3 if big else 1), ctx.scale(4, 40) * (3 if big else 1), True, ctx)
